@@ -55,6 +55,16 @@ CHECKS['C03'] = dict(
     note='Trusted: as C01; sin/cos are uninterpreted atoms constrained only by the listed true lemmas (so the claim is for exact-real '
          'evaluation, large |t| argument rounding is outside); H restricted to the diagonal generators as the property states.',
     design='§3 C03')
+CHECKS['C11'] = dict(
+    text='The three PrepareEvolve overloads, LowPassFilter and AvgRampFilter are executed symbolically for d=2..6 with H (diagonal '
+         'generators), times, scale, cutoff, ramp and incoming table entries symbolic. If/else diamonds are merged at their '
+         'post-dominator, so one symbolic path covers all 2^15 flag patterns in dimension 6. z3 decides per pair: zero+flag iff '
+         '|phase|>|scale| else equal to the unaveraged table; multiplier 1 / ramp / 0 and rejection iff |ramp|>|cutoff|; the interval '
+         'table against the closed-form average (cross-multiplied, circle lemma on canonical atoms), its limit values for coincident '
+         'levels, and that no executed division can have a zero divisor for finite inputs with t0<t1.',
+    note='Trusted: as C03; the closed form of the time average of cos/sin is a trusted calculus fact; the unaveraged table is the '
+         'oracle for "as in the unaveraged table" and is tied to level pairs by solver queries.',
+    design='§3 C11')
 NA_REASON = 'check not built yet (framework under construction; see DESIGN.md)'
 NA = {}
 
